@@ -356,3 +356,120 @@ PROPS["C15"] = dict(
     assumptions=ARENA_STUBS,
     trusted=["arena_layer.c"],
 )
+
+
+# ------------------------------------------------------------------------------------------------
+# page layer (page_layer.c): C01 page steps, C03 interior pointers, C04 zeroing pop, C12 walk, C17 hardened builds
+PAGE_REPL = {"_mi_ptr_segment": "stub_ptr_segment", "_mi_segment_page_of": "stub_segment_page_of", "_mi_segment_page_start": "stub_segment_page_start",
+             "_mi_page_retire": "stub_page_retire", "_mi_page_unfull": "stub_page_unfull", "_mi_malloc_generic": "stub_malloc_generic",
+             "mi_free_block_mt": "stub_free_block_mt"}
+PAGE_STUBS = ["pointer lookup _mi_ptr_segment/_mi_segment_page_of/_mi_segment_page_start replaced by stubs returning the harness segment/page/area (their arithmetic is C16)",
+              "_mi_page_retire/_mi_page_unfull/_mi_malloc_generic: recording stubs (queue and generic-path lemmas are separate)",
+              "Inv_page: blocks at concrete positions (BS, NBLK from the driver); per block live/free/local/thread-free, list order ascending or descending by index, arbitrary bytes, flags, keys; used = live + thread-free; free_is_zero => free blocks zero past the link",
+              "atomics are sequential in these step lemmas (concurrency is decided by the rely/guarantee harnesses)", "options symbolic; error handler records codes"]
+
+
+def pg_ob(id, entry, bs=32, nblk=5, flavour="release", **kw):
+    kw.setdefault("unwind", nblk + 3)
+    kw.setdefault("timeout", 900)
+    kw.setdefault("native_replay", False)
+    kw.setdefault("replace", PAGE_REPL)
+    d = list(kw.pop("defines", [])) + ["BS=%d" % bs, "NBLK=%d" % nblk, "MI_PRIM_THREAD_ID=verif_tid"]
+    if flavour != "release" and not any(x.startswith("KEY0") for x in d):
+        d += ["KEY0=0x9E3779B97F4A7C15ul", "KEY1=0xD1B54A32D192ED03ul"]
+    us = list(kw.pop("unwindset", []))
+    big = (nblk + 1) * bs // 8 + 2 if True else 0
+    bigb = bs + 2
+    # byte loops of the harness (area fill / snapshot / compare / zero checks) get the area size; every other loop
+    # (list walks, collect, extend, visit) gets a bound derived from the number of blocks
+    for lp in ("fill_area.0", "assume_zero_tail.0", "snapshot.0", "check_block_same.0"):
+        us.append("%s:%d" % (lp, big))
+    us.append("check_zero.0:%d" % bigb)
+    for lp in ("pad_live.0", "mi_check_padding.0", "mi_verify_padding.0", "_mi_page_malloc_zero.0"):
+        us.append("%s:%d" % (lp, 20))            # at most MI_MAX_ALIGN_SIZE (16) padding bytes
+    us.append("_mi_heap_area_visit_blocks.0:20")      # free-map words (MI_MAX_BLOCKS / bits)
+    return O(id, "page_layer.c", entry, defines=d, flavour=flavour, unwindset=us, **kw)
+
+
+def page_obs(prefix, entries, sizes=((32, 5),), flavours=("release",), tier="quick", **kw):
+    obs = []
+    for e, funcs in entries:
+        for (bs, nb) in sizes:
+            for fl in flavours:
+                obs.append(pg_ob("%s.%s.bs%d.%s" % (prefix, e[2:], bs, fl), e, bs=bs, nblk=nb, flavour=fl, funcs=funcs, tier=tier, cost=60,
+                                 bounds="block size %d, %d blocks, %s build" % (bs, nb, fl), **kw))
+    return obs
+
+
+E_MALLOC = ("h_malloc", ["_mi_page_malloc_zero", "mi_block_next", "_mi_memzero_aligned"])
+E_FREE = ("h_free_local", ["mi_free", "mi_checked_ptr_segment", "mi_free_block_local", "mi_free_generic_local", "_mi_page_ptr_unalign", "mi_check_is_double_free", "mi_check_padding", "mi_block_set_next"])
+E_USABLE = ("h_usable", ["mi_usable_size", "_mi_usable_size", "mi_page_usable_aligned_size_of", "mi_page_usable_size_of", "_mi_page_ptr_unalign"])
+E_COLLECT = ("h_collect", ["_mi_page_free_collect", "_mi_page_thread_free_collect", "mi_block_next"])
+E_EXTEND = ("h_extend", ["mi_page_extend_free", "mi_page_free_list_extend", "mi_page_block_at"])
+E_VISIT = ("h_visit", ["_mi_heap_area_visit_blocks", "_mi_heap_area_init", "mi_get_fast_divisor", "mi_fast_divide", "_mi_page_free_collect"])
+
+
+def c01():
+    obs = page_obs("C01", [E_MALLOC, E_FREE, E_COLLECT, E_EXTEND], sizes=((32, 5), (48, 4)), flavours=("release",))
+    obs += page_obs("C01", [E_MALLOC], sizes=((32, 3),), flavours=("secure",), timeout=1200)
+    obs += page_obs("C01", [E_FREE, E_COLLECT], sizes=((32, 3),), flavours=("secure",), tier="thorough", timeout=3600, std_checks=False)
+    obs += page_obs("C01", [E_MALLOC, E_FREE, E_COLLECT], sizes=((48, 3),), flavours=("debug",), tier="thorough", timeout=3000)
+    obs += page_obs("C01", [E_MALLOC, E_FREE, E_COLLECT, E_EXTEND], sizes=((16, 6), (80, 4), (1024, 3)), flavours=("release", "secure"), tier="thorough")
+    return obs
+
+
+PROPS["C01"] = dict(
+    obligations=c01,
+    bounds="one page of 3-6 blocks at block sizes 16/32/48/80/1024; every combination of live/free/local-free blocks, list order ascending or descending, arbitrary contents and flags; one allocator step from that state (induction step of the history)",
+    outside="composition over histories and across pages/segments (disjoint spans: segment lemmas; disjoint arena blocks: C14); arbitrary list permutations; page queues and the generic path (heap lemmas); huge pages",
+    assumptions=PAGE_STUBS,
+    trusted=["page_layer.c Inv_page builder and list walker"],
+)
+
+
+def c17():
+    E_DF = ("h_double_free", ["mi_free", "mi_check_is_double_free", "mi_check_is_double_freex", "mi_list_contains", "mi_is_in_same_page", "mi_block_nextx"])
+    E_OV = ("h_overflow_detect", ["mi_free", "mi_check_padding", "mi_verify_padding", "mi_page_decode_padding", "mi_ptr_encode_canary"])
+    E_CL = ("h_corrupt_link", ["_mi_page_malloc_zero", "mi_block_next", "mi_ptr_decode", "mi_is_in_same_page"])
+    HARD = dict(std_checks=False)   # hardened code compares pointers decoded from program data / forged links: pointer-validity instrumentation on those comparisons is not meaningful
+    obs = page_obs("C17", [E_CL], sizes=((32, 4),), flavours=("secure", "debug"), **HARD)
+    obs += page_obs("C17", [E_MALLOC], sizes=((32, 3),), flavours=("secure",))
+    obs += page_obs("C17", [E_DF], sizes=((32, 2),), flavours=("secure",), timeout=900, **HARD)
+    obs += page_obs("C17", [E_OV], sizes=((32, 2),), flavours=("debug",), timeout=900, **HARD)
+    obs += page_obs("C17", [E_DF], sizes=((32, 3),), flavours=("secure", "debug"), tier="thorough", timeout=3000, **HARD)
+    obs += page_obs("C17", [E_OV], sizes=((32, 3),), flavours=("debug",), tier="thorough", timeout=3000, **HARD)
+    obs += page_obs("C17", [E_FREE], sizes=((32, 3),), flavours=("secure",), tier="thorough", timeout=3600, **HARD)
+    obs += page_obs("C17", [E_DF, E_CL, E_OV], sizes=((64, 3),), flavours=("debug",), tier="thorough", timeout=3600, **HARD)
+    return obs
+
+
+PROPS["C17"] = dict(
+    obligations=c17,
+    bounds="pages of 3-4 blocks (32/48/64 bytes) in the secure (MI_SECURE=4) and debug (MI_DEBUG=2) builds; arbitrary keys, list states, forged link values (full 64 bit), overflow byte position/value",
+    outside="a second free after the whole area was released; internal assertions of debug builds after a detected error; thread-free list cycles (bounded walk) are in the thorough tier",
+    assumptions=PAGE_STUBS,
+    trusted=["page_layer.c"],
+)
+
+
+def c12():
+    obs = page_obs("C12", [E_VISIT], sizes=((32, 5),), flavours=("release",))
+    obs += page_obs("C12", [E_VISIT], sizes=((48, 4),), flavours=("release",), tier="thorough", timeout=1800)
+    obs += page_obs("C12", [E_VISIT], sizes=((48, 3),), flavours=("debug",), tier="thorough", timeout=3000)
+    for b in (1, 2, 6, 9, 13, 22, 33, 40, 43, 48):
+        obs.append(O("C12.fast_divide.bin%02d" % b, "c16_arith.c", "h_fast_divide", defines=["BIN=%d" % b], funcs=["mi_get_fast_divisor", "mi_fast_divide"], cost=30,
+                     bounds="real bin %d, all block offsets inside a page of up to 2^16 blocks" % b, timeout=600))
+    for b in range(1, 49):
+        if b not in (1, 2, 6, 9, 13, 22, 33, 40, 43, 48):
+            obs.append(O("C12.fast_divide.bin%02d" % b, "c16_arith.c", "h_fast_divide", tier="thorough", defines=["BIN=%d" % b], funcs=["mi_get_fast_divisor", "mi_fast_divide"], cost=30,
+                         bounds="real bin %d" % b, timeout=900))
+    return obs
+
+
+PROPS["C12"] = dict(
+    obligations=c12,
+    bounds="one page of 4-5 blocks with arbitrary live/free/local-free/thread-free pattern and capacity; visitor stopping after 0-3 calls; fast division exact for every real block size (per size, all offsets up to 2^16 blocks)",
+    outside="pages with more than 64 blocks (free-map word boundary), iteration over page queues and abandoned segments (heap/segment lemmas)",
+    assumptions=PAGE_STUBS,
+    trusted=["page_layer.c visitor bookkeeping"],
+)
